@@ -21,6 +21,8 @@ REPLAYS = os.path.join(EVID, "replays")
 NCPU = os.cpu_count() or 4
 GUARD = "MANAGARM_FRIGG_VERIF"
 MAX_CRASHES_PER_SHARD = 4
+MAX_SHARD_OUTPUT = int(os.environ.get("VERIF_MAX_SHARD_OUTPUT", str(768 * 1024 * 1024)))
+MAX_SEEN_OUTPUT = 0
 PER_FILE_TIMEOUT = int(os.environ.get("VERIF_COQC_TIMEOUT", "900"))
 
 STD_AXIOMS = {  # axioms declared by the standard library itself; allowed if named in the trusted base
@@ -47,18 +49,26 @@ SAN_ENV = {
 
 
 def sh(cmd, timeout=600, cwd=None, inp=None, env=None):
-    """Run a command; returns (rc, stdout, stderr). rc=-9 on timeout."""
+    """Run a command in its own process group; returns (rc, stdout, stderr). rc=-9 on timeout (the whole group is killed)."""
+    import signal
     e = dict(os.environ)
     if env:
         e.update(env)
+    p = subprocess.Popen(cmd, cwd=cwd, stdin=subprocess.PIPE if inp is not None else None, stdout=subprocess.PIPE,
+                         stderr=subprocess.PIPE, text=True, env=e, errors="replace", start_new_session=True)
     try:
-        p = subprocess.run(cmd, cwd=cwd, input=inp, capture_output=True, text=True,
-                           timeout=timeout, env=e, errors="replace")
-        return p.returncode, p.stdout, p.stderr
-    except subprocess.TimeoutExpired as ex:
-        out = ex.stdout.decode(errors="replace") if isinstance(ex.stdout, bytes) else (ex.stdout or "")
-        err = ex.stderr.decode(errors="replace") if isinstance(ex.stderr, bytes) else (ex.stderr or "")
-        return -9, out, err + "\n[timeout after %ss]" % timeout
+        out, err = p.communicate(inp, timeout=timeout)
+        return p.returncode, out, err
+    except subprocess.TimeoutExpired:
+        try:
+            os.killpg(p.pid, signal.SIGKILL)
+        except OSError:
+            pass
+        try:
+            out, err = p.communicate(timeout=10)
+        except Exception:
+            out, err = "", ""
+        return -9, out or "", (err or "") + "\n[timeout after %ss]" % timeout
 
 
 class _Lock:
@@ -335,7 +345,12 @@ def _run_shard(exe, cases, timeout, args, env):
             budget = float(os.environ.get("VERIF_FAIL_BUDGET_S", "240" if _CURRENT.tier == "quick" else "1200"))
             if time.time() - _CURRENT.t0 > budget:
                 break   # this shard already has a crash/hang to report and the check's wall budget is used up
-        rc, out, err = sh([exe] + list(args), inp=format_cases(todo), timeout=timeout, env=env)
+        # the harness's stdout is cut off after MAX_SHARD_OUTPUT bytes (the harness then dies of SIGPIPE and the case it
+        # was running counts as crashed): a broken implementation must not be able to make the check buffer gigabytes
+        rc, out, err = sh(["/bin/bash", "-c", 'set -o pipefail; "$0" "$@" 2> >(head -c 20000000 >&2) | head -c %d' % MAX_SHARD_OUTPUT, exe] + list(args),
+                          inp=format_cases(todo), timeout=timeout, env=env)
+        global MAX_SEEN_OUTPUT
+        MAX_SEEN_OUTPUT = max(MAX_SEEN_OUTPUT, len(out))
         parsed, order = parse_output(out)
         done = 0
         for cid, _ in todo:
@@ -717,6 +732,7 @@ class Check:
             "broken": self.broken,
             "explanation": " ".join(self.notes),
         }
+        cov["max_shard_output_bytes"] = MAX_SEEN_OUTPUT
         cov.update(self.extra)
         ev = {"property_id": self.pid, "tier": self.tier, "seed": self.seed, "level": level,
               "coverage": cov, "assumptions": self.assumptions, "wall_s": round(time.time() - self.t0, 2),
